@@ -27,7 +27,8 @@ fn valid_gen(g: Generation) -> bool {
 #[kani::proof_for_contract(Generation::is_root)]
 fn c13__generation__is_root_contract() {
     let g: Generation = kani::any();
-    g.is_root();
+    let r = g.is_root();
+    assert!(r == (g.0 == 0)); // copy of the postcondition, so that a native replay reproduces a violation
     kani::cover!(true); // vacuity guard: the end of the harness is reachable under its assumptions
 }
 
@@ -35,7 +36,8 @@ fn c13__generation__is_root_contract() {
 fn c13__generation__is_parent_of_contract() {
     let a: Generation = kani::any();
     let b: Generation = kani::any();
-    a.is_parent_of(b);
+    let r = a.is_parent_of(b);
+    assert!(r == (a.0 < b.0));
     kani::cover!(true); // vacuity guard: the end of the harness is reachable under its assumptions
 }
 
@@ -43,20 +45,23 @@ fn c13__generation__is_parent_of_contract() {
 fn c13__generation__can_contain_contract() {
     let a: Generation = kani::any();
     let b: Generation = kani::any();
-    a.can_contain_values_from(b);
+    let r = a.can_contain_values_from(b);
+    assert!(r == (b.0 <= a.0));
     kani::cover!(true); // vacuity guard: the end of the harness is reachable under its assumptions
 }
 
 #[kani::proof_for_contract(Generation::next)]
 fn c13__generation__next_contract() {
     let a: Generation = kani::any();
-    a.next();
+    let r = a.next();
+    assert!(r.0 == a.0 + 1);
     kani::cover!(true); // vacuity guard: the end of the harness is reachable under its assumptions
 }
 
 #[kani::proof_for_contract(Generation::disjoint)]
 fn c13__generation__disjoint_contract() {
-    Generation::disjoint();
+    let r = Generation::disjoint();
+    assert!(r.0 < 0);
     kani::cover!(true); // vacuity guard: the end of the harness is reachable under its assumptions
 }
 
